@@ -308,3 +308,81 @@ Proof.
   apply py_for_unit_kind. intros x Hx. destruct (base_ok_pairs _ _ _ _ Hok x Hx) as (c & s & -> & _).
   simpl. apply res_kind_last. rewrite GenTie_checker. reflexivity.
 Qed.
+
+(* ---- ranked ballots: one pass collecting the set of candidates and the number of places, per-rank bounds on shared ranks *)
+Lemma scan_cons ranks i o rest t c :
+  ranked_scan ranks i (o :: rest) t c =
+  match ranked_scan ranks i [o] t c with
+  | (VOk, t', c') => ranked_scan ranks (i + 1) rest t' c'
+  | r => r
+  end.
+Proof.
+  destruct o; cbn [ranked_scan];
+    repeat match goal with |- context [if ?b then _ else _] => destruct b end; reflexivity.
+Qed.
+
+(* what one round of the loop has to do, in terms of the model on a one-item ballot *)
+Definition round_spec (ranks : keyed_bounds) (f : list pyobj * Z -> Z * pyobj -> (list pyobj * Z) + pyvexn) : Prop :=
+  forall ac t i o,
+    match ranked_scan ranks i [o] t ac with
+    | (VOk, t', c') => f (ac, Z.of_nat t) (i, o) = inl (c', Z.of_nat t')
+    | (r, _, _) => exists e, f (ac, Z.of_nat t) (i, o) = inr e /\ exn_kind e = Some r
+    end.
+
+Definition enum_from (k : nat) (items : list pyobj) : list (Z * pyobj) := combine (map Z.of_nat (seq k (length items))) items.
+
+Lemma ranked_loop ranks f : round_spec ranks f -> forall items k t ac,
+  match ranked_scan ranks (Z.of_nat k) items t ac with
+  | (VOk, t', c') => py_for (enum_from k items) f (ac, Z.of_nat t) = inl (c', Z.of_nat t')
+  | (r, _, _) => exists e, py_for (enum_from k items) f (ac, Z.of_nat t) = inr e /\ exn_kind e = Some r
+  end.
+Proof.
+  intros Hf. induction items as [|o rest IH]; intros k t ac; [reflexivity|].
+  rewrite scan_cons. pose proof (Hf ac t (Z.of_nat k) o) as H1.
+  change (enum_from k (o :: rest)) with ((Z.of_nat k, o) :: enum_from (S k) rest). cbn [py_for].
+  destruct (ranked_scan ranks (Z.of_nat k) [o] t ac) as [[r t'] c'].
+  destruct r; try (destruct H1 as (e & -> & He); exists e; split; [reflexivity|exact He]).
+  rewrite H1. replace (Z.of_nat k + 1) with (Z.of_nat (S k)) by lia. apply IH.
+Qed.
+
+Lemma checker_cases b v :
+  match check_model b v with
+  | VOk => exists u, VoteMagnitudeChecker_check (fst b) (snd b) v = inl u
+  | r => exists e, VoteMagnitudeChecker_check (fst b) (snd b) v = inr e /\ exn_kind e = Some r
+  end.
+Proof.
+  pose proof (GenTie_checker b v) as H. destruct (VoteMagnitudeChecker_check (fst b) (snd b) v) as [u|e]; simpl in H.
+  - injection H as <-. exists u. reflexivity.
+  - pose proof (exn_kind_not_ok _ _ H) as Hn. destruct (check_model b v); try congruence; exists e; split; trivial.
+Qed.
+
+Theorem GenTie_ranked : forall nm tot ranks v,
+  res_kind (RankedVoteValidator_validate nm tot ranks v) = Some (validate_ranked nm tot ranks v).
+Proof.
+  intros nm tot ranks v. unfold RankedVoteValidator_validate, validate_ranked.
+  destruct v as [k i|n d| |items|l|l]; try not_container.
+  cbn [negb py_iter]. cbv iota beta zeta.
+  match goal with |- context [py_for (py_enumerate items) ?f _] =>
+    assert (Hround : round_spec ranks f); [|pose proof (ranked_loop ranks f Hround items 0%nat 0%nat []) as Hloop] end.
+  { intros ac t i o. destruct o as [k j|n d| |lt|lf|ll]; [destruct k| | | | |].
+    1-8,10: (cbv beta iota zeta; cbn [ranked_scan fst snd]; cbv iota beta zeta; unfold py_set_add, py_hashable;
+      match goal with |- context [hashable ?x] => destruct (hashable x) end; cbv iota beta zeta;
+      [f_equal; f_equal; lia | exists PyTypeError; split; reflexivity]).
+    cbv beta iota zeta. cbn [ranked_scan fst snd py_len]. cbv iota beta zeta.
+    change (DefaultedCheckers___getitem__ (fst ranks) (snd ranks) (i + 1)) with (kb_get ranks (i + 1)).
+    pose proof (checker_cases (kb_get ranks (i + 1)) (py_int (py_len_items lf))) as Hc.
+    unfold py_len_items in Hc at 1. rewrite check_model_int in Hc. unfold check in Hc.
+    destruct (in_bounds (kb_get ranks (i + 1)) (qnat (length lf))).
+    - destruct Hc as [u ->]. unfold py_set_update. f_equal. f_equal. unfold py_len_items. lia.
+    - destruct Hc as (e & -> & He). exists e. split; [reflexivity|exact He]. }
+  change (py_enumerate items) with (enum_from 0 items). change (Z.of_nat 0) with 0 in Hloop.
+  destruct (ranked_scan ranks 0 items 0 []) as [[r total] cands].
+  destruct r; try (destruct Hloop as (e & -> & He); exact He).
+  rewrite Hloop. cbv iota beta zeta.
+  apply res_kind_bind; [rewrite GenTie_checker; apply f_equal, check_model_int|]. intros _ _ _.
+  unfold py_len_items. unfold check at 1.
+  destruct (Z.ltb_spec (Z.of_nat (length cands)) (Z.of_nat total)) as [E|E].
+  - assert (E2 : Nat.ltb (length cands) total = true) by (apply Nat.ltb_lt; lia). rewrite E2. reflexivity.
+  - assert (E2 : Nat.ltb (length cands) total = false) by (apply Nat.ltb_ge; lia). rewrite E2. cbn [negb andthen].
+    apply res_kind_last, py_for_unit_kind. intros x _. cbv beta zeta. apply res_kind_last, GenTie_nominator.
+Qed.
